@@ -214,6 +214,33 @@ theorem orig_stringset_not_total : ¬ ∀ b, TotalP b.length (stringSetDecodeOri
   cases hr2
   omega
 
+/-- before the fix: a BranchesRepos count of 2^64-1 (`int` -1) reached `make([]BranchRepos, l)` → makeslice panic
+    (corpus/C26/br-neg-count.json), whatever roaring does -/
+theorem orig_branchesrepos_panics {β} (parse : Bytes → Option β) :
+    branchesReposDecodeOrig parse [1, 0xff, 0xff, 0xff, 0xff, 0xff, 0xff, 0xff, 0xff, 0xff, 0x01] =
+      .panic "makeslice: len out of range" := by
+  rfl
+
+/-- before the fix: an error was overwritten by a later success. With a parser that rejects the slice `[0]` and
+    accepts `[7]`, the 8 input bytes decode *without error* into a list whose first bitmap is the debris of the
+    failed parse (`some none`); the fixed decoder reports the error (corpus/C26/br-error-swallowed.json). -/
+theorem orig_branchesrepos_swallows_error :
+    let parse : Bytes → Option Unit := fun s => if s = [0] then none else some ()
+    decoded (branchesReposDecodeOrig parse [1, 2, 0, 1, 0, 0, 1, 7]) = some [([], some none), ([], some (some ()))] ∧
+    decoded (branchesReposDecode parse [1, 2, 0, 1, 0, 0, 1, 7]) = none := by
+  decide
+
+/-- before the fix: a negative announced total reached `make([]RepositoryBranch, 0, n)` (rm-neg-allbranches.json),
+    and a negative per-repository branch count reached `allBranches[len(allBranches)-lb:]` (rm-neg-branchcount.json) -/
+theorem orig_reposmap_panics :
+    reposMapDecodeOrig [2, 0, 0xff, 0xff, 0xff, 0xff, 0xff, 0xff, 0xff, 0xff, 0xff, 0x01] =
+      .panic "makeslice: len out of range" ∧
+    reposMapDecodeOrig [2, 1, 0, 0, 0, 0, 0xff, 0xff, 0xff, 0xff, 0xff, 0xff, 0xff, 0xff, 0xff, 0x01] =
+      .panic "slice bounds out of range [l:]" ∧
+    decoded (reposMapDecode [2, 0, 0xff, 0xff, 0xff, 0xff, 0xff, 0xff, 0xff, 0xff, 0xff, 0x01]) = none ∧
+    decoded (reposMapDecode [2, 1, 0, 0, 0, 0, 0xff, 0xff, 0xff, 0xff, 0xff, 0xff, 0xff, 0xff, 0xff, 0x01]) = none := by
+  decide
+
 /-! ## non-vacuity: the hypotheses of the round-trip theorems are satisfiable, and decoding does both accept and reject -/
 
 example : decoded (stringSetDecode (stringSetEncode [[97], [98, 99], []])) = some [[97], [98, 99], []] :=
